@@ -5,7 +5,7 @@
 id=$1; tier=$2; shift 2
 cd /verif
 if [ -n "$(git -C /repo status --porcelain --untracked-files=no)" ]; then echo "/repo has local modifications; refusing"; exit 2; fi
-git -C /repo apply seeded/$id/patch.diff || { echo "patch does not apply to /repo"; exit 2; }
+git -C /repo apply /verif/seeded/$id/patch.diff || { echo "patch does not apply to /repo"; exit 2; }
 trap 'git -C /repo checkout -- . ' EXIT
 for p in "$@"; do
   s=$(date +%s)
